@@ -47,6 +47,10 @@ THEOREMS = [
     "Typedpy.C14.abstract_entries_example",
     "Typedpy.C14.reachable_no_sealed_ancestor",
     "Typedpy.C14.sub_required_superset",
+    "Typedpy.C14.sub_accepts_base_accepts_reachable",
+    "Typedpy.C14.direct_sub_accepts_base_accepts",
+    "Typedpy.reachable_sigOk",
+    "Typedpy.reachable_bridge_wf",
 ]
 RULE = ("histories of class statements: DAG hierarchies of 1..4 classes (single / two struct bases, plain mixins "
         "before or after, ImmutableStructure / FinalStructure / AbstractStructure roots), fields from the type-directed "
@@ -67,7 +71,7 @@ RULE = ("histories of class statements: DAG hierarchies of 1..4 classes (single 
         "accepted lists are replayed, restricted, on every ancestor whose fields are inherited unchanged; "
         "non-trivial = >= 2 class statements; distinct by sha256 of the case line")
 ASSUMPTIONS = [
-    "class identity is the class name (the harness uses fresh names); defaults are not None",
+    "class identity is the class name (the harness uses fresh names); a literal None default is generated and modelled (it is no default); default factories returning None and Structure-instance defaults are not generated",
     "typing-style annotations (list[int], Optional[...]) are C13's subject; entries here are Field objects / Field classes",
     "PYTHONHASHSEED=0 in the run; the order of the required parameters (a Python set) is read off the real signature and given to the model as an oracle (theorem: accept/reject does not depend on it); _required / signature-required are compared as sets",
     "a sunder/dunder-named attribute holding a bare type is exempted by the code (_is_sunder/_is_dunder) and not counted as the fault",
